@@ -346,10 +346,6 @@ impl Lowerer<'_> {
 
             let arm_lbl = arm_labels[arm_index];
 
-            // Even if we "forget" to drop the values, we still need to pop
-            // them from the stack.
-            let to_drop = self.stack_slots.pop().unwrap();
-
             if let Some(guard) = &arm.guard {
                 // The guard only runs when this variant is matched, so its
                 // temporaries cannot live in the enclosing frame: that frame
@@ -370,6 +366,11 @@ impl Lowerer<'_> {
                     self.emit_drop(Place::new(var, ty), ty);
                 }
 
+                // The extracted fields stay on the stack while the guard is
+                // lowered, so that leaving the function from inside the
+                // guard drops them.
+                let to_drop = self.stack_slots.pop().unwrap();
+
                 let ident = Identifier::from(format!("guard_{}_drop", i));
                 let intermediate_lbl =
                     self.label_store.wrap_internal(lbl, ident);
@@ -388,6 +389,9 @@ impl Lowerer<'_> {
 
                 self.emit_jump(next_lbl);
             } else {
+                // Even if we "forget" to drop the values, we still need to
+                // pop them from the stack.
+                self.stack_slots.pop().unwrap();
                 self.emit_jump(arm_lbl);
             }
         }
